@@ -261,7 +261,26 @@ def _danger(free, ghosts, radius=2):
 
 
 def _safe_first(ctx, prefer):
-    """Play `prefer` unless the real one-step look-ahead says it kills; then any surviving move."""
+    """Play `prefer` unless the real look-ahead (all move sequences of length 3 through the vmapped real step) says it
+    leads to death; then the move that survives longest. Workload only."""
+    from jmon.rollout import _planner
+
+    s2, ts2 = ctx["runner"].step(ctx["state"], np.asarray(prefer, np.int32))
+    if int(np.asarray(ts2.step_type)) == 2 and not bool(np.asarray(s2.dead)):
+        return np.asarray(prefer, np.int32)  # the move that ends the episode by clearing the maze (or at the limit)
+    pl = _planner(ctx["runner"], 3)
+    if pl is not None:
+        f, jseqs, seqs, acts = pl
+        surv = np.asarray(f(ctx["state"], jseqs)[0])
+        best = {}
+        for k in range(4):
+            sel = surv[seqs[:, 0] == k]
+            best[k] = int(sel.max()) if len(sel) else -1
+        top = max(best.values())
+        if best.get(int(prefer), -1) == top:
+            return np.asarray(prefer, np.int32)
+        ks = [k for k in ctx["rng"].permutation(4).tolist() if best[k] == top]
+        return np.asarray(ks[0], np.int32)
     runner, state = ctx["runner"], ctx["state"]
     order = [prefer] + [k for k in ctx["rng"].permutation(4).tolist() if k != prefer]
     for k in order:
